@@ -336,6 +336,82 @@ def transform(kind, src):
                             i += 2
                             continue
                     i += 1
+    if kind in ("T26", "T27"):
+        lines = src.split("\n")
+        for fn in ast.walk(tree):
+            if not isinstance(fn, (ast.FunctionDef, ast.AsyncFunctionDef)):
+                continue
+            if any(isinstance(x, (ast.FunctionDef, ast.AsyncFunctionDef, ast.Lambda, ast.ClassDef)) and x is not fn for x in ast.walk(fn)):
+                continue
+            all_names = [x for x in ast.walk(fn) if isinstance(x, ast.Name)]
+            for node in ast.walk(fn):
+                for fld in ("body", "orelse"):
+                    b = getattr(node, fld, None)
+                    if not (isinstance(b, list) and b and isinstance(b[0], ast.stmt)):
+                        continue
+                    for i, st in enumerate(b):
+                        if kind == "T26":
+                            # v = [E for T in IT if C]   ->   v = [] ; for T in IT: if C: v.append(E)
+                            if not (isinstance(st, ast.Assign) and len(st.targets) == 1 and isinstance(st.targets[0], ast.Name) and isinstance(st.value, ast.ListComp)
+                                    and len(st.value.generators) == 1 and not st.value.generators[0].is_async):
+                                continue
+                            comp, gen = st.value, st.value.generators[0]
+                            v = st.targets[0].id
+                            inside = {id(x) for x in ast.walk(comp)}
+                            tnames = {x.id for x in ast.walk(gen.target) if isinstance(x, ast.Name)}
+                            if any(x.id == v for x in ast.walk(comp) if isinstance(x, ast.Name)):
+                                continue
+                            if any(x.id in tnames and id(x) not in inside for x in all_names):
+                                continue        # the loop variable would leak into another use of the same name
+                            if lines[st.lineno - 1][:st.col_offset].strip() != "" or "#" in "".join(lines[st.lineno - 1:st.end_lineno]):
+                                continue
+                            ind = " " * st.col_offset
+                            txt = f"{v} = []\n{ind}for {bsegment(src, gen.target)} in {bsegment(src, gen.iter)}:\n"
+                            inner = ind + "    "
+                            for c in gen.ifs:
+                                txt += f"{inner}if {bsegment(src, c)}:\n"
+                                inner += "    "
+                            txt += f"{inner}{v}.append({bsegment(src, comp.elt)})"
+                            edits.append(Edit(st, txt))
+                        else:
+                            # v = [] ; for T in IT: [if C:] v.append(E)   ->   v = [E for T in IT if C]
+                            if i + 1 >= len(b):
+                                continue
+                            nx = b[i + 1]
+                            if not (isinstance(st, ast.Assign) and len(st.targets) == 1 and isinstance(st.targets[0], ast.Name) and isinstance(st.value, ast.List)
+                                    and not st.value.elts and isinstance(nx, ast.For) and not nx.orelse and len(nx.body) == 1):
+                                continue
+                            v = st.targets[0].id
+                            inner = nx.body[0]
+                            cond = None
+                            if isinstance(inner, ast.If) and not inner.orelse and len(inner.body) == 1:
+                                cond, inner = inner.test, inner.body[0]
+                            if not (isinstance(inner, ast.Expr) and isinstance(inner.value, ast.Call) and isinstance(inner.value.func, ast.Attribute)
+                                    and inner.value.func.attr == "append" and isinstance(inner.value.func.value, ast.Name) and inner.value.func.value.id == v
+                                    and len(inner.value.args) == 1 and not inner.value.keywords):
+                                continue
+                            elt = inner.value.args[0]
+                            reads_v = [x for part in (elt, nx.iter, cond) if part is not None for x in ast.walk(part) if isinstance(x, ast.Name) and x.id == v]
+                            if reads_v:
+                                continue
+                            tnames = {x.id for x in ast.walk(nx.target) if isinstance(x, ast.Name)}
+                            inside = {id(x) for x in ast.walk(nx)}
+                            if any(x.id in tnames and id(x) not in inside for x in all_names):
+                                continue        # the loop variable is used after the loop
+                            seg_lines = lines[st.lineno - 1:nx.end_lineno]
+                            if any("#" in ln for ln in seg_lines) or lines[st.lineno - 1][:st.col_offset].strip() != "":
+                                continue
+                            txt = f"{v} = [{bsegment(src, elt)} for {bsegment(src, nx.target)} in {bsegment(src, nx.iter)}"
+                            if cond is not None:
+                                txt += f" if {bsegment(src, cond)}"
+                            txt += "]"
+
+                            class Sp:
+                                pass
+                            sp = Sp()
+                            sp.lineno, sp.col_offset = st.lineno, st.col_offset
+                            sp.end_lineno, sp.end_col_offset = nx.end_lineno, nx.end_col_offset
+                            edits.append(Edit(sp, txt))
     if kind == "T8":
         # rename every function-local variable (not a parameter) in functions without nested scopes that could capture it
         for fn in ast.walk(tree):
@@ -428,7 +504,7 @@ def run_one(args):
     return kind, prop, total, ("FALSE-ALARM" if new else "silent"), new
 
 
-KINDS = ["T1", "T2", "T3", "T4", "T5", "T6", "T7", "T8", "T11", "T13", "T15", "T20", "T21", "T22", "T23", "T24", "T25"]
+KINDS = ["T1", "T2", "T3", "T4", "T5", "T6", "T7", "T8", "T11", "T13", "T15", "T20", "T21", "T22", "T23", "T24", "T25", "T26"]   # T27 (append loop -> comprehension) has no site on the current tree; available by name
 KIND_DESC = {"T1": "operands of ==/!= swapped", "T2": "ordering comparisons mirrored", "T3": "`entries += e` written as `entries = entries + e`",
              "T4": "negated test with swapped branches", "T5": "return through a temporary", "T6": "float sums/products of the same field commuted",
              "T7": "pure operands of and/or swapped", "T8": "function-local variables renamed",
@@ -437,7 +513,9 @@ KIND_DESC = {"T1": "operands of ==/!= swapped", "T2": "ordering comparisons mirr
              "T21": "enumerate loops rewritten with range(len(...)) and an index", "T22": "`.items()` loops rewritten as key loops with a lookup",
              "T23": "JSON readers read every required key once into a temporary behind the key gate",
              "T24": "De Morgan: `if A and B: X else: Y` written as `if not A or not B: Y else: X`",
-             "T25": "two consecutive independent assignments written as one parallel assignment"}
+             "T25": "two consecutive independent assignments written as one parallel assignment",
+             "T26": "list comprehensions bound to a local written as append loops",
+             "T27": "append loops written as list comprehensions"}
 
 
 def run_property(prop, jobs=8):
